@@ -84,18 +84,19 @@ type memVersion struct {
 }
 
 type bprover struct {
-	fn      *ssa.Function
-	w       *World
-	ids     map[ssa.Value]string
-	nid     int
-	global  []fact // invariants valid everywhere (phi lower bounds, unsigned atoms, assumptions)
-	axioms  map[string]bool
-	memIn   map[*ssa.BasicBlock]*memVersion
-	loadVer map[*ssa.UnOp]*memVersion
-	cell    ssa.Value // the versioned pointer parameter
-	halfOf  map[string]lin
-	assume  []string
-	depth   int
+	fn       *ssa.Function
+	w        *World
+	ids      map[ssa.Value]string
+	nid      int
+	global   []fact // invariants valid everywhere (phi lower bounds, unsigned atoms, assumptions)
+	axioms   map[string]bool
+	memIn    map[*ssa.BasicBlock]*memVersion
+	loadVer  map[*ssa.UnOp]*memVersion
+	callVers map[*ssa.Call]*memVersion
+	cell     ssa.Value // the versioned pointer parameter
+	halfOf   map[string]lin
+	assume   []string
+	depth    int
 }
 
 func newBProver(w *World, fn *ssa.Function) *bprover {
@@ -214,6 +215,11 @@ func (p *bprover) memSSA() {
 				case *ssa.Store:
 					if x.Addr == p.cell {
 						cur = &memVersion{val: x.Val, id: "st:" + p.id(x.Val)}
+					}
+				case *ssa.Call:
+					// a callee that receives the pointer may write through it
+					if mv := p.callVersion(x); mv != nil {
+						cur = mv
 					}
 				}
 			}
@@ -929,4 +935,37 @@ func (p *bprover) indexObl(in ssa.Instruction, x, idx ssa.Value, b *ssa.BasicBlo
 		parts = append(parts, "cannot prove index < len ("+u.sub(i).add(konst(-1)).String()+" >= 0)")
 	}
 	return boundObl{in, desc, ok, strings.Join(parts, "; ")}
+}
+
+// callVersion: the memory version after a call that receives the tracked
+// pointer: the call's own result when the callee hands back exactly what it
+// stored through the pointer (hb.resize(n)), an unknown version otherwise;
+// nil when the call does not receive the pointer.
+func (p *bprover) callVersion(call *ssa.Call) *memVersion {
+	if p.cell == nil {
+		return nil
+	}
+	gets := false
+	for _, a := range call.Call.Args {
+		if a == ssa.Value(p.cell) {
+			gets = true
+		}
+	}
+	if !gets {
+		return nil
+	}
+	if p.callVers == nil {
+		p.callVers = map[*ssa.Call]*memVersion{}
+	}
+	if mv, ok := p.callVers[call]; ok {
+		return mv
+	}
+	var mv *memVersion
+	if h := staticCallee(call); h != nil && len(call.Call.Args) > 0 && call.Call.Args[0] == ssa.Value(p.cell) && storesResultThroughRecv(h) {
+		mv = &memVersion{val: call, id: "call:" + p.id(call)}
+	} else {
+		mv = &memVersion{id: "clobber:" + p.id(call)}
+	}
+	p.callVers[call] = mv
+	return mv
 }
